@@ -3,6 +3,7 @@ package props
 import (
 	"bytes"
 	"context"
+	"encoding"
 	stdjson "encoding/json"
 	"fmt"
 	"math/rand"
@@ -10,6 +11,7 @@ import (
 	"runtime"
 	"runtime/debug"
 	"strings"
+	"testing/iotest"
 	"unsafe"
 
 	gojson "github.com/goccy/go-json"
@@ -298,6 +300,13 @@ func wellFormed(v reflect.Value, depth int) string {
 		}
 	case reflect.Ptr, reflect.Interface:
 		if !v.IsNil() {
+			if v.Kind() == reflect.Interface && v.NumMethod() > 0 {
+				// an interface with methods carries a method table for its dynamic type: a value
+				// stored as (type, data) has a type descriptor where the table should be
+				if m := ifaceTableOK(v); m != "" {
+					return m
+				}
+			}
 			return wellFormed(v.Elem(), depth+1)
 		}
 	case reflect.Map:
@@ -315,6 +324,102 @@ func wellFormed(v reflect.Value, depth int) string {
 		}
 	}
 	return ""
+}
+
+func ifaceTableOK(v reflect.Value) (msg string) {
+	defer func() {
+		if r := recover(); r != nil {
+			msg = fmt.Sprintf("interface value of type %s cannot be inspected: %v", v.Type(), r)
+		}
+	}()
+	et := v.Elem().Type()
+	if !et.Implements(v.Type()) {
+		return fmt.Sprintf("interface value of type %s holds a %s, which does not implement it", v.Type(), et)
+	}
+	return ""
+}
+
+// c07NilIfaces: nil interfaces with methods as destinations (member, element, map value, top
+// level). Whatever the verdict, the destination must stay a value reflect and the collector can
+// walk: such an interface is a (method table, data) pair, an empty interface a (type, data) pair.
+func c07NilIfaces(c *rt.Ctx, sub0 int) {
+	type holder struct {
+		A  int
+		E  error
+		S  fmt.Stringer
+		Sh zoo.Shaper
+		TU encoding.TextUnmarshaler
+		B  string
+	}
+	dsts := []func() any{
+		func() any { return &holder{} },
+		func() any { var e error; return &e },
+		func() any { var s fmt.Stringer; return &s },
+		func() any { return &[]fmt.Stringer{} },
+		func() any { return &map[string]zoo.Shaper{} },
+		func() any { return &[2]error{} },
+		func() any { return &struct{ P *fmt.Stringer }{} },
+	}
+	vals := []string{`"s"`, `1.5`, `true`, `[1,"x"]`, `{"a":1}`, `null`, `""`}
+	sub := sub0
+	for di, mk := range dsts {
+		for _, val := range vals {
+			var docs []string
+			switch di {
+			case 0:
+				for _, k := range []string{"E", "S", "Sh", "TU"} {
+					docs = append(docs, `{"A":1,"`+k+`":`+val+`,"B":"b"}`)
+				}
+			case 1, 2:
+				docs = []string{val, " " + val + " "}
+			case 3, 5:
+				docs = []string{"[" + val + "]", "[" + val + "," + val + "]"}
+			case 4:
+				docs = []string{`{"k":` + val + `}`}
+			default:
+				docs = []string{`{"P":` + val + `}`}
+			}
+			for _, doc := range docs {
+				sub++
+				if !c.Cur(sub, "shapes=core\nnil interface destination "+fmt.Sprintf("%T", mk())+"\ndoc: "+doc) {
+					continue
+				}
+				for mode := 0; mode < 3; mode++ {
+					dst := mk()
+					var err error
+					pan, msg, _ := rt.Guard(func() {
+						switch mode {
+						case 0:
+							err = gojson.Unmarshal([]byte(doc), dst)
+						case 1:
+							err = gojson.NewDecoder(strings.NewReader(doc)).Decode(dst)
+						default:
+							err = gojson.NewDecoder(iotest.OneByteReader(strings.NewReader(doc))).Decode(dst)
+						}
+					})
+					c.Eval(1)
+					entry := []string{"Unmarshal", "Decoder", "Decoder"}[mode]
+					if pan {
+						c.Obs("panics_seen_judged_by_C06", 1)
+						_ = msg
+						continue
+					}
+					_ = err
+					runtime.GC()
+					var m string
+					pan, msg, _ = rt.Guard(func() { m = wellFormed(reflect.ValueOf(dst).Elem(), 0) })
+					if pan {
+						m = "walking the destination panicked: " + msg
+					}
+					if m != "" {
+						c.Violate(rt.Violation{Monitor: "well-formed", Entry: entry, Kind: "malformed-value", Ctx: "nil-interface-with-methods", Detail: fmt.Sprintf("%T from %s: %s", dst, doc, m), Sub: sub})
+					}
+					c.Obs("nil_interface_decodes", 1)
+				}
+				c.NonTrivial("niliface", fmt.Sprint(di), doc)
+			}
+		}
+	}
 }
 
 func c07Case(c *rt.Ctx, sub int, t reflect.Type, fdesc string, doc []byte, seed int64, stream bool) {
@@ -1088,6 +1193,9 @@ func init() {
 				}
 				if k == 11 && c.Idx%64 == 5 {
 					c07MapElemSizes(c, 900000)
+				}
+				if k == 11 && c.Idx%64 == 6 {
+					c07NilIfaces(c, 950000)
 				}
 				if k == 0 {
 					c.Sample(map[string]any{"type": t.String(), "docs": len(docs), "example_doc": docs[len(docs)/2][0], "fields": descs})
